@@ -20,7 +20,7 @@ func init() {
 			"only on the `copied[d]` edge or when it is an import declaration — every other path of the loop body writes the declaration's source; (copied-writers) the `copied` set is written only by GetPrevDecl " +
 			"and MarkStructCopied, and GetPrevDecl marks exactly the declaration it returns; (body-flows) in both resolver layouts the result of every GetMethodBody call is either discarded for the root accessor " +
 			"only, or reaches the ImplementationStr of a Resolver value whose PrevDecl and Comment come from GetPrevDecl / GetMethodComment for the same (struct, method) arguments, and that Resolver is appended to " +
-			"the file; (imports-flow) File.imports is assigned from ExistingImports of that file's own name before it is rendered, and File.Imports reserves every import with its alias; (exact-match) GetPrevDecl matches method and receiver names by plain equality; (comment-lines-prefixed) the helper that re-emits a preserved doc comment prefixes every line, blank lines included.",
+			"the file; (imports-flow) File.imports is assigned from ExistingImports of that file's own name before it is rendered, and File.Imports reserves every import with its alias; (exact-match) GetPrevDecl matches method and receiver names by plain equality; (comment-lines-prefixed) the helper that re-emits a preserved doc comment prefixes every line, blank lines included. (obj-resolution-consistent) a generator package that reads ast.Ident.Obj never parses with parser.SkipObjectResolution.",
 		NotDecided:  "verbatim preservation of bodies and comments (byte offsets in getSource), validity of the emitted file, repeated regeneration (idempotence, see F13) — value-level / dynamic",
 		Assumptions: []string{"go/packages gives the previous resolver package's syntax; text/template renders what the Resolver values carry"},
 	})
